@@ -478,8 +478,12 @@ class FuzzyTerm(ExpandingTerm):
                 ^ hash(self.constantscore))
 
     def _btexts(self, ixreader):
-        return ixreader.terms_within(self.fieldname, self.text, self.maxdist,
-                                     prefix=self.prefixlength)
+        # terms_within() yields text; every other _btexts() yields bytes
+        to_bytes = ixreader.schema[self.fieldname].to_bytes
+        for word in ixreader.terms_within(self.fieldname, self.text,
+                                          self.maxdist,
+                                          prefix=self.prefixlength):
+            yield to_bytes(word)
 
     def replace(self, fieldname, oldtext, newtext):
         q = copy.copy(self)
